@@ -152,6 +152,8 @@ type Half struct {
 	werr      error
 	werrRaw   bool // return werr verbatim (not wrapped in a *net.OpError)
 
+	failEpoch int // bumped by FailTogether: an operation in progress at that moment reports the failure even if its end is closed meanwhile
+
 	rewrite func(off int64, p []byte) []byte
 
 	paused bool // reader sees nothing while paused
@@ -257,6 +259,55 @@ func (h *Half) SetWriteFaultRaw(after int64, err error) {
 	h.mu.Unlock()
 }
 
+// Failure is one half of what FailTogether breaks: with Cut the half's reader
+// fails with Err (nil: ECONNRESET) once At bytes were delivered, otherwise its
+// writer fails with Err (nil: EPIPE) from now on.
+type Failure struct {
+	H   *Half
+	Cut bool
+	At  int64
+	Err error
+}
+
+// FailTogether breaks several halves (of one or of several connections) in
+// one atomic step, as a connection reset does for the two directions of a
+// connection, or a dying network for two connections.  An operation that is
+// already in progress (blocked) on one of the halves at that moment reports
+// the failure — not net.ErrClosed — even if another goroutine closes its end
+// before it runs again; that is one of the outcomes a blocked operation on a
+// real socket has when a reset and a Close race, and the one a test on real
+// sockets cannot produce on demand.
+func FailTogether(fs ...Failure) {
+	seen := map[*Half]bool{}
+	var hs []*Half
+	for _, f := range fs {
+		if !seen[f.H] {
+			seen[f.H] = true
+			hs = append(hs, f.H)
+		}
+	}
+	for _, h := range hs {
+		h.mu.Lock()
+	}
+	for _, f := range fs {
+		h := f.H
+		if f.Cut {
+			h.cutAt, h.cutKind, h.cutErr = f.At, CutRST, f.Err
+		} else if f.Err != nil {
+			h.werrAfter, h.werr, h.werrRaw = h.written, f.Err, true
+		} else {
+			h.werrAfter, h.werr, h.werrRaw = h.written, syscall.EPIPE, false
+		}
+		h.failEpoch++
+	}
+	for _, h := range hs {
+		h.mu.Unlock()
+	}
+	for _, h := range hs {
+		h.cond.Broadcast()
+	}
+}
+
 // SetRewrite installs a middlebox: every written slice p (first byte at
 // stream offset off, counted before rewriting) is replaced by the result.
 func (h *Half) SetRewrite(f func(off int64, p []byte) []byte) {
@@ -349,11 +400,15 @@ func errStr(err error) string {
 
 func (c *Conn) readLocked(p []byte) (int, error) {
 	h := c.rd
+	entry := h.failEpoch
 	for {
 		c.mu.Lock()
 		closed, dl := c.closed, c.rdl
 		c.mu.Unlock()
 		if closed {
+			if h.failEpoch != entry && h.cutAt >= 0 && h.cutKind == CutRST && h.delivered >= h.cutAt {
+				return 0, h.rstErr(c) // the reset arrived while this Read was blocked
+			}
 			return 0, opErr("read", c, net.ErrClosed)
 		}
 		if !dl.IsZero() && !time.Now().Before(dl) {
@@ -428,11 +483,19 @@ func (c *Conn) Write(p []byte) (int, error) {
 	total := 0
 	ev := len(h.Writes)
 	h.Writes = append(h.Writes, WEvent{Off: h.written, T: time.Since(h.start), Tick: Tick()})
+	entry := h.failEpoch
 	for {
 		c.mu.Lock()
 		closed, dl := c.closed, c.wdl
 		c.mu.Unlock()
 		if closed {
+			if h.failEpoch != entry && h.werrAfter >= 0 && h.written >= h.werrAfter {
+				// the failure arrived while this Write was blocked
+				if h.werrRaw {
+					return total, h.werr
+				}
+				return total, opErr("write", c, h.werr)
+			}
 			return total, opErr("write", c, net.ErrClosed)
 		}
 		if h.rclosed {
